@@ -24,7 +24,7 @@ type Observed struct {
 
 // RunOpts tunes how a scenario is driven.
 type RunOpts struct {
-	WAF   coraza.WAF            // reuse this WAF instead of compiling the scenario (long-lived WAF runs)
+	WAF   coraza.WAF                 // reuse this WAF instead of compiling the scenario (long-lived WAF runs)
 	Hooks func(tx types.Transaction) // called right after NewTransaction (install per-tx hooks)
 }
 
